@@ -49,8 +49,8 @@ type C15Scenario struct {
 	// Sparse: decode modes: additional sparse source files of these sizes
 	// (2^31-1, 2^31, 2^32-1, 2^32, 2^40 ...) so that the real sender has to
 	// encode 64-bit lengths; they are listed but never requested.
-	Sparse []int64 `json:"sparse,omitempty"`
-	Tr      Transport   `json:"tr"`
+	Sparse []int64   `json:"sparse,omitempty"`
+	Tr     Transport `json:"tr"`
 }
 
 type c15 struct{}
